@@ -3,17 +3,35 @@
 mod ops;
 mod refs;
 
+use num_bigint::BigUint;
 use ops::*;
 use refs::*;
 use vgad::OpCase;
 
 fn main() {
+    vcore::install_panic_hook();
     // bring-up probe
-    let g = RP::generator(Cv::Jub);
-    let c = Case { cv: Cv::Jub, op: Op::Double, ins: vec![V::Pt(P { label: "G".into(), rp: g })] };
-    let t = std::time::Instant::now();
-    let k = vgad::min_k(&c);
-    println!("k={k:?} {:?}", t.elapsed());
-    let r = vgad::run_once(&c, k.unwrap(), vec![], false);
-    println!("{:?} n={} {:?} judge={:?}", r.outcome, r.n_assign, t.elapsed(), c.judge(&r.ins, &r.outs));
+    for cv in [Cv::Jub, Cv::Secp, Cv::Bls] {
+        let g = RP::generator(cv);
+        let p = |l: &str, rp: RP| V::Pt(P { label: l.into(), rp });
+        let s = |v: u64| V::Sc(S { label: format!("{v}"), v: BigUint::from(v) });
+        let big = V::Sc(S { label: "r-1".into(), v: cv.r() - 1u32 });
+        let cases = vec![
+            Case { cv, op: Op::Assign, ins: vec![p("G", g)] },
+            Case { cv, op: Op::Double, ins: vec![p("G", g)] },
+            Case { cv, op: Op::Add, ins: vec![p("G", g), p("2G", g.double())] },
+            Case { cv, op: Op::Negate, ins: vec![p("G", g)] },
+            Case { cv, op: Op::MulByConst(S { label: "5".into(), v: BigUint::from(5u32) }), ins: vec![p("G", g)] },
+            Case { cv, op: Op::Msm { ns: 1, nb: 1, terms: vec![(SRef::In(0), BRef::In(0))], bounds: None }, ins: vec![s(7), p("G", g)] },
+            Case { cv, op: Op::Msm { ns: 1, nb: 1, terms: vec![(SRef::In(0), BRef::In(0))], bounds: None }, ins: vec![big, p("G", g)] },
+            Case { cv, op: Op::Msm { ns: 2, nb: 2, terms: vec![(SRef::In(0), BRef::In(0)), (SRef::In(1), BRef::In(1))], bounds: None }, ins: vec![s(7), s(9), p("G", g), p("2G", g.double())] },
+        ];
+        for c in cases {
+            let t = std::time::Instant::now();
+            let k = vgad::min_k(&c);
+            let tk = t.elapsed();
+            let r = vcore::in_pool(1, || vgad::run_once(&c, k.clone().unwrap(), vec![], false));
+            println!("{} k={k:?} ({tk:?}) {:?} n={} untamp={} t={:?} judge={:?}", c.key(), r.outcome, r.n_assign, r.untamperable, t.elapsed(), c.judge(&r.ins, &r.outs));
+        }
+    }
 }
